@@ -414,6 +414,21 @@ def translate_expression(expr, env: Env) -> TExp:  # noqa: C901
             if len(_ret) == 1:
                 return (bool, _ret[0])
 
+            def nest(ttype, bits):
+                # rebuild the (nested) value of type ttype from the flat list of its bits
+                if get_args(ttype):
+                    vals = []
+                    for t in get_args(ttype):
+                        v, bits = nest(t, bits)
+                        vals.append(v)
+                    return vals, bits
+                if ttype is bool:
+                    return bits[0], bits[1:]
+                return bits[: ttype.BIT_SIZE], bits[ttype.BIT_SIZE :]
+
+            if get_args(def_f[2].ttype):
+                _ret = nest(def_f[2].ttype, _ret)[0]
+
             return (def_f[2].ttype, _ret)
 
         raise exceptions.UnknownSymbolException(expr.func.id, env)
